@@ -4191,3 +4191,24 @@ B("C17-create-options-validated-under-lock", "C17", "C17:R-C17.15:db::Database::
   """            let mut opts = create_options();""",
   """            let mut opts = create_options();
             assert!(opts.max_memtable_size > 0, "max_memtable_size may not be zero");""")
+
+# ---- repair 43 reverted
+B("F43-C17-thread-counter-raised-up-front", "C17", "C17:R-C17.4:worker_pool::WorkerPool::start:counter-counts-exactly-the-threads-that-run", WP,
+  """        let thread_handles = (0..pool_size)
+            .map(|i| {
+                // NOTE: Counted per thread, not up front: if a spawn fails, the threads after it are never
+                // created, and the database drop would wait for them forever
+                thread_counter.fetch_add(1, Relaxed);
+""",
+  """        thread_counter.fetch_add(pool_size, Relaxed);
+
+        let thread_handles = (0..pool_size)
+            .map(|i| {
+""")
+B("C17-failed-spawn-not-given-back", "C17", "C17:R-C17.4:worker_pool::WorkerPool::start:counter-counts-exactly-the-threads-that-run", WP,
+  """                    .inspect_err(|_| {
+                        thread_counter.fetch_sub(1, Relaxed);
+                    })""",
+  """                    .inspect_err(|e| {
+                        log::error!("Could not spawn worker thread: {e:?}");
+                    })""")
